@@ -147,6 +147,29 @@ def _child(spec: dict) -> dict:  # noqa: C901, PLR0915, PLR0912
         """a BaseException that is not an Exception (like SystemExit / KeyboardInterrupt)"""
 
     faults = {"boom": boom, "base": Halt("c12-unique-halt"), "sysexit": SystemExit(97)}
+    # exception groups raised BY THE APPLICATION callback (one member, two members, nested one-in-one)
+    leaves = [Boom("leaf-0"), urwid.ExitMainLoop(), Halt("leaf-2"), Boom("leaf-3"), ValueError("leaf-4"), Boom("leaf-5")]
+
+    def _noted(g):
+        g.add_note("c12-note")
+        return g
+
+    faults.update(
+        eg1_boom=_noted(ExceptionGroup("c12-eg1", [leaves[0]])),
+        eg1_exit=_noted(ExceptionGroup("c12-eg1x", [leaves[1]])),
+        beg1_base=_noted(BaseExceptionGroup("c12-beg1", [leaves[2]])),
+        eg2=_noted(ExceptionGroup("c12-eg2", [leaves[3], leaves[4]])),
+        egnest=_noted(ExceptionGroup("c12-outer", [_noted(ExceptionGroup("c12-inner", [leaves[5]]))])),
+    )
+
+    def shape(e):
+        """type / message / notes / members of an exception (group), leaves identified by OBJECT identity"""
+        if isinstance(e, BaseExceptionGroup):
+            return {"type": type(e).__name__, "msg": e.message, "notes": list(getattr(e, "__notes__", [])), "members": [shape(m) for m in e.exceptions]}
+        ident = next((i for i, x in enumerate(leaves) if x is e), None)
+        if ident is None:
+            ident = next((f"fault:{k}" for k, x in faults.items() if x is e), None)
+        return {"type": type(e).__name__, "leaf": ident, "repr": repr(e)[:80]}
 
     def enter(site: str, **info) -> None:
         k = counts[site]
@@ -476,6 +499,9 @@ def _child(spec: dict) -> dict:  # noqa: C901, PLR0915, PLR0912
             outcome["exc_repr"] = repr(e)[:300]
             outcome["same_object"] = bool(inject) and e is faults.get(inject["kind"])
             outcome["is_exception_subclass"] = isinstance(e, Exception)
+            outcome["shape"] = shape(e)
+            if inject and inject["kind"] in faults:
+                outcome["injected_shape"] = shape(faults[inject["kind"]])
             import traceback
 
             outcome["tb"] = traceback.format_exc(limit=12)[-1500:]
